@@ -619,3 +619,6 @@ def register_late(P):
         if comp not in P.PROPS["C11"]["components"]:
             P.PROPS["C11"]["components"].append(comp)
     P.PROPS["C11"]["oracles"]["sock_tables"] = oracle_tables(P)
+    from gens import vsock_oracles as _VO
+    P.PROPS["C11"]["oracles"]["wire_wellformed"] = _VO.ALL["wire_wellformed"]
+    P.ORACLE_COMPONENT["wire_wellformed"] = "vsock"
